@@ -413,4 +413,46 @@ MUTANTS = [
 @njit(
     types.void(
         uint32[:, :],""")]),
+    # ---- C08 / C19
+    dict(name="c08-merge-pairs-overlap", props=["C08"], edits=[(HP, """            sketch1 = (sketch_type, sketch_args, sketch_array[i * 2].shm.name)
+            sketch2 = (sketch_type, sketch_args, sketch_array[i * 2 + 1].shm.name)""", """            sketch1 = (sketch_type, sketch_args, sketch_array[i * 2].shm.name)
+            sketch2 = (sketch_type, sketch_args, sketch_array[min(i * 2 + 1 + (n_to_merge > 4), n_to_merge - 1)].shm.name)""")]),
+    dict(name="c08-merge-drops-carried-odd-sketch", props=["C08"], edits=[(HP, """        for i in range(0, n_to_merge, 2):
+            new_sketch_array.append(sketch_array[i])""", """        for i in range(0, n_to_merge - (n_to_merge % 2) * (n_to_merge > 3), 2):
+            new_sketch_array.append(sketch_array[i])""")]),
+    dict(name="c08-n-records-only-first-sketch", props=["C08", "C19"], edits=[(HP, """            for local_sketch in local_sketches:
+                try:
+                    # Only the CMS & HH has n_records. Fails if HLL, but we don't care
+                    local_sketch.n_added_records[1] += np.uint64(n_records)
+                except:
+                    pass""", """            for local_sketch in local_sketches[:1]:
+                try:
+                    # Only the CMS & HH has n_records. Fails if HLL, but we don't care
+                    local_sketch.n_added_records[1] += np.uint64(n_records)
+                except:
+                    pass""")]),
+    dict(name="c08-return-order-hh-hll-swapped", props=["C08"], edits=[(HP, """    elif hh_args and hll_args:
+        return hh_final, hll_final""", """    elif hh_args and hll_args:
+        return hll_final, hh_final""")]),
+    dict(name="c08-one-pill-too-few-for-many-workers", props=["C08"], edits=[(HP, """    for _ in range(n_workers):
+        queue.put(None)""", """    for _ in range(min(n_workers, 7)):
+        queue.put(None)""")]),
+    dict(name="c08-worker-kwargs-dropped-after-first-item", props=["C08"], edits=[(HP, """                n_recs = process_q_item(q_item, *local_sketches, **kwargs)""", """                n_recs = process_q_item(q_item, *local_sketches, **kwargs)
+                kwargs = {k: v for k, v in kwargs.items() if k != "bonus"}""")]),
+    dict(name="c19-no-try-except-in-worker", props=["C19"], edits=[(HP, """            try:
+                n_recs = process_q_item(q_item, *local_sketches, **kwargs)
+            except Exception as exc:
+                n_recs = 0
+                msg = f"WORKER {worker_id:02} threw exception on {q_item}: {exc}"
+                log_queue.put(
+                    {
+                        "level": "ERROR",
+                        "text": msg,
+                    }
+                )""", """            n_recs = process_q_item(q_item, *local_sketches, **kwargs)""")]),
+    dict(name="c19-failed-item-counts-previous-n-recs", props=["C19"], edits=[(HP, """            except Exception as exc:
+                n_recs = 0
+                msg""", """            except Exception as exc:
+                msg""")]),
+    dict(name="c19-monitor-ignores-exit-code-1", props=["C19"], edits=[(HP, """            elif p.exitcode != 0:""", """            elif p.exitcode < 0 or p.exitcode > 1:""")]),
 ]
